@@ -46,18 +46,27 @@ package cache
 //@   props C13 C18
 //@   opt locks
 //@   opt pre_only_if=locks
-//@   requires [not-held] c.SubCache != nil && sync.rwheld[&c.SubCache.mu] == 0
+//@   requires [not-held@locks] c.SubCache != nil && sync.rwheld[&c.SubCache.mu] == 0
 //@   stable all(RepoCacheBug.SubCache)
 //@   ensures [lock-balanced] forall m *sync.RWMutex :: { sync.rwheld[m] } sync.rwheld[m] == old(sync.rwheld[m])
 //@   modifies nothing
 //@   opt trusted_frame
 //@   let comments = result.Snapshot().Comments
 //@   ensures [bug-holds-comment] result2 == nil ==> result != nil && result1.HasPrefix(prefix) && (exists k int :: { comments[k] } 0 <= k && k < len(comments) && comments[k].combinedId == result1)
+//@   ensures [unique-within-bug] result2 == nil ==> (forall k int :: { comments[k] } 0 <= k && k < len(comments) && comments[k].combinedId.HasPrefix(prefix) ==> comments[k].combinedId == result1)
+// a match is counted because the comment's combined id starts with the prefix - every time, also for a second comment
+// of the same bug -, and ambiguity is reported only when more than one comment matched
+//@   assert at `matchingBugIds = append(matchingBugIds, bugId)` [counted-because-it-matches] comment.combinedId.HasPrefix(prefix)
+//@   assert at `return nil, entity.UnsetCombinedId, entity.NewErrMultipleMatch(` [ambiguity-means-several-matching-comments] len(matchingBugIds) > 1
 //@   loop 2
+//@     invariant [single-match-is-unique-in-its-bug] len(matchingBugIds) == 1 ==> (forall k int :: { matchingBug.Snapshot().Comments[k] } 0 <= k && k < len(matchingBug.Snapshot().Comments) && matchingBug.Snapshot().Comments[k].combinedId.HasPrefix(prefix) ==> matchingBug.Snapshot().Comments[k].combinedId == matchingCommentId)
 //@     invariant [match-is-in-bug] len(matchingBugIds) > 0 ==> matchingBug != nil && matchingCommentId.HasPrefix(prefix) && (exists k int :: { matchingBug.Snapshot().Comments[k] } 0 <= k && k < len(matchingBug.Snapshot().Comments) && matchingBug.Snapshot().Comments[k].combinedId == matchingCommentId)
 //@   loop 3
 //@     invariant [match-is-in-bug] len(matchingBugIds) > 0 ==> matchingBug != nil && matchingCommentId.HasPrefix(prefix) && (exists k int :: { matchingBug.Snapshot().Comments[k] } 0 <= k && k < len(matchingBug.Snapshot().Comments) && matchingBug.Snapshot().Comments[k].combinedId == matchingCommentId)
 //@     invariant [same-snapshot]   rangeslice == b.Snapshot().Comments
+//@     invariant [none-yet] len(matchingBugIds) == 0 ==> (forall j int :: { rangeslice[j] } 0 <= j && j <= rangeindex ==> !rangeslice[j].combinedId.HasPrefix(prefix))
+//@     invariant [one-so-far] len(matchingBugIds) <= 1 ==> (forall j int :: { rangeslice[j] } 0 <= j && j <= rangeindex && rangeslice[j].combinedId.HasPrefix(prefix) ==> rangeslice[j].combinedId == matchingCommentId && matchingBug == b)
+//@     invariant [earlier-single-match] len(matchingBugIds) == 1 && matchingBug != b ==> (forall k int :: { matchingBug.Snapshot().Comments[k] } 0 <= k && k < len(matchingBug.Snapshot().Comments) && matchingBug.Snapshot().Comments[k].combinedId.HasPrefix(prefix) ==> matchingBug.Snapshot().Comments[k].combinedId == matchingCommentId)
 
 // bugOps counts operations appended to bugs through the cache (every *Raw editing method appends one).
 //@ ghost var bugOps int
@@ -208,7 +217,7 @@ package cache
 //@   stable excerptFrom, cachedFrom
 //@   opt locks
 //@   opt may_replace=cached
-//@   requires [not-held] sc != nil && sync.rwheld[&sc.mu] == 0
+//@   requires [not-held@locks] sc != nil && sync.rwheld[&sc.mu] == 0
 //@   nopanic typeassert
 //@   recvinv results: (elem.Status == entity.MergeStatusNew || elem.Status == entity.MergeStatusUpdated) && elem.Err == nil ==> implements(elem.Entity, EntityT)
 //@   let n = recvcount(results)
@@ -284,7 +293,7 @@ package cache
 //@ func (*SubCache).AllIds
 //@   props C18
 //@   opt locks
-//@   requires [not-held] sync.rwheld[&sc.mu] == 0
+//@   requires [not-held@locks] sync.rwheld[&sc.mu] == 0
 //@   ensures [lock-balanced] forall m *sync.RWMutex :: { sync.rwheld[m] } sync.rwheld[m] == old(sync.rwheld[m])
 //@   modifies sync.rwheld
 //@   opt trusted_frame
@@ -295,7 +304,7 @@ package cache
 //@   props C18
 //@   opt locks
 //@   stable all(RepoCacheBug.SubCache)
-//@   requires [not-held] c.SubCache != nil && sync.rwheld[&c.SubCache.mu] == 0
+//@   requires [not-held@locks] c.SubCache != nil && sync.rwheld[&c.SubCache.mu] == 0
 //@   ensures [lock-balanced] forall m *sync.RWMutex :: { sync.rwheld[m] } sync.rwheld[m] == old(sync.rwheld[m])
 
 //@ func (*RepoCacheIdentity).finishIdentity
@@ -303,7 +312,7 @@ package cache
 //@   opt locks
 //@   opt assume_pre=identity.(*Identity)
 //@   stable all(RepoCacheIdentity.SubCache)
-//@   requires [not-held] c.SubCache != nil && sync.rwheld[&c.SubCache.mu] == 0
+//@   requires [not-held@locks] c.SubCache != nil && sync.rwheld[&c.SubCache.mu] == 0
 //@   ensures [lock-balanced] forall m *sync.RWMutex :: { sync.rwheld[m] } sync.rwheld[m] == old(sync.rwheld[m])
 
 //@ func (*SubCache).allIds
@@ -330,7 +339,7 @@ package cache
 //@   props C18
 //@   opt locks
 //@   opt pre_only_if=locks
-//@   requires [not-held] sc != nil && sync.rwheld[&sc.mu] == 0
+//@   requires [not-held@locks] sc != nil && sync.rwheld[&sc.mu] == 0
 //@   modifies nothing
 //@   opt trusted_frame
 //@   ensures [lock-balanced] forall m *sync.RWMutex :: { sync.rwheld[m] } sync.rwheld[m] == old(sync.rwheld[m])
@@ -340,7 +349,7 @@ package cache
 //@   props C18
 //@   opt locks
 //@   opt pre_only_if=locks
-//@   requires [not-held] sc != nil && sync.rwheld[&sc.mu] == 0
+//@   requires [not-held@locks] sc != nil && sync.rwheld[&sc.mu] == 0
 //@   modifies nothing
 //@   opt trusted_frame
 //@   ensures [lock-balanced] forall m *sync.RWMutex :: { sync.rwheld[m] } sync.rwheld[m] == old(sync.rwheld[m])
@@ -349,7 +358,7 @@ package cache
 //@   props C18
 //@   opt locks
 //@   opt pre_only_if=locks
-//@   requires [not-held] sc != nil && sync.rwheld[&sc.mu] == 0
+//@   requires [not-held@locks] sc != nil && sync.rwheld[&sc.mu] == 0
 //@   ensures [lock-balanced] forall m *sync.RWMutex :: { sync.rwheld[m] } sync.rwheld[m] == old(sync.rwheld[m])
 
 // (C11) when it reports success the excerpt of the entity has been recomputed from the loaded instance and
@@ -358,7 +367,7 @@ package cache
 //@   props C18 C11
 //@   opt locks
 //@   opt pre_only_if=locks
-//@   requires [not-held] sc != nil && sync.rwheld[&sc.mu] == 0
+//@   requires [not-held@locks] sc != nil && sync.rwheld[&sc.mu] == 0
 //@   ensures [lock-balanced] forall m *sync.RWMutex :: { sync.rwheld[m] } sync.rwheld[m] == old(sync.rwheld[m])
 //@   assert at `sc.mu.Unlock()` [excerpt-recomputed] (id in sc.cached) ==> (id in sc.excerpts) && excerptFrom[sc.excerpts[id]] == sc.cached[id]
 //@   ensures [indexed] result == nil ==> repository.indexOps == old(repository.indexOps) + 1
@@ -376,7 +385,7 @@ package cache
 //@   props C18 C14 C11
 //@   opt locks
 //@   stable entityRemovals, lastRemovedEntity, repository.indexedDocs
-//@   requires [not-held] sc != nil && sync.rwheld[&sc.mu] == 0
+//@   requires [not-held@locks] sc != nil && sync.rwheld[&sc.mu] == 0
 //@   assert at `index, err := sc.repo.GetIndex(sc.namespace)` [cache-entries-deleted] !(e.Id() in sc.cached) && !(e.Id() in sc.excerpts) && entityRemovals == old(entityRemovals) + 1 && lastRemovedEntity == e.Id()
 //@   check [index-document-removed] result == nil ==> !repository.indexedDocs[string(e.Id())] && entityRemovals == old(entityRemovals) + 1
 //@   ensures [lock-balanced] forall m *sync.RWMutex :: { sync.rwheld[m] } sync.rwheld[m] == old(sync.rwheld[m])
@@ -384,22 +393,26 @@ package cache
 //@ func (*SubCache).RemoveAll
 //@   props C18
 //@   opt locks
-//@   requires [not-held] sc != nil && sync.rwheld[&sc.mu] == 0
+//@   requires [not-held@locks] sc != nil && sync.rwheld[&sc.mu] == 0
 //@   ensures [lock-balanced] forall m *sync.RWMutex :: { sync.rwheld[m] } sync.rwheld[m] == old(sync.rwheld[m])
 
 //@ func (*SubCache).write
 //@   props C18
 //@   opt locks
 //@   opt pre_only_if=locks
-//@   requires [not-held] sc != nil && sync.rwheld[&sc.mu] == 0
+//@   requires [not-held@locks] sc != nil && sync.rwheld[&sc.mu] == 0
 //@   modifies nothing
 //@   opt trusted_frame
 //@   ensures [lock-balanced] forall m *sync.RWMutex :: { sync.rwheld[m] } sync.rwheld[m] == old(sync.rwheld[m])
+// the cache file is created and filled while the lock under which the excerpts were serialized is still held: a
+// writer that serialized an older state cannot reach the file after a writer that serialized a newer one
+//@   assert at `f, err := sc.repo.LocalStorage().Create(` [file-written-under-the-lock] sync.rwheld[&sc.mu] != 0
+//@   assert at `_, err = f.Write(data.Bytes())` [file-written-under-the-lock] sync.rwheld[&sc.mu] != 0
 
 //@ func (*SubCache).Close
 //@   props C18
 //@   opt locks
-//@   requires [not-held] sc != nil && sync.rwheld[&sc.mu] == 0
+//@   requires [not-held@locks] sc != nil && sync.rwheld[&sc.mu] == 0
 //@   ensures [lock-balanced] forall m *sync.RWMutex :: { sync.rwheld[m] } sync.rwheld[m] == old(sync.rwheld[m])
 
 // The lock of a cached entity (CachedEntityBase.mu / IdentityCache.mu), as seen through the CacheEntity
@@ -428,7 +441,7 @@ package cache
 //@   props C18
 //@   opt locks
 //@   opt pre_only_if=locks
-//@   requires [not-held] sc != nil && sync.rwheld[&sc.mu] == 0
+//@   requires [not-held@locks] sc != nil && sync.rwheld[&sc.mu] == 0
 //@   ensures [lock-balanced] forall m *sync.RWMutex :: { sync.rwheld[m] } sync.rwheld[m] == old(sync.rwheld[m])
 //@   ensures [entries-not-replaced] forall k entity.Id :: { sc.cached[k] } old(k in sc.cached) && (k in sc.cached) ==> sc.cached[k] == old(sc.cached[k])
 //@   loop 1
@@ -614,12 +627,12 @@ package cache
 //@   props C18
 //@   opt locks
 //@   stable all(RepoCacheBug.SubCache)
-//@   requires [not-held] c.SubCache != nil && sync.rwheld[&c.SubCache.mu] == 0
+//@   requires [not-held@locks] c.SubCache != nil && sync.rwheld[&c.SubCache.mu] == 0
 //@   ensures [lock-balanced] forall m *sync.RWMutex :: { sync.rwheld[m] } sync.rwheld[m] == old(sync.rwheld[m])
 //@ func (*SubCache).Load
 //@   props C18
 //@   opt locks
-//@   requires [not-held] sc != nil && sync.rwheld[&sc.mu] == 0
+//@   requires [not-held@locks] sc != nil && sync.rwheld[&sc.mu] == 0
 //@   ensures [lock-balanced] forall m *sync.RWMutex :: { sync.rwheld[m] } sync.rwheld[m] == old(sync.rwheld[m])
 
 // entityNotifies counts the notifications sent to the sub-cache (calls of the entityUpdated callback): every
@@ -687,6 +700,8 @@ package cache
 //@   ensures [removed-only-when-dead] repository.storageRemoves > old(repository.storageRemoves) ==> repository.storageRemoves == old(repository.storageRemoves) + 1 && repository.lastRemoved == lockfile && process.aliveChecks == old(process.aliveChecks) + 1 && !process.lastAlive
 //@   ensures [one-check-at-most]      process.aliveChecks <= old(process.aliveChecks) + 1
 //@   assert at `err = repo.LocalStorage().Remove(lockfile)` [tested-pid-is-the-file-s] process.aliveChecks == old(process.aliveChecks) + 1 && !process.lastAlive && process.lastAlivePid == pid
+// ... and a lock file is refused unexamined only when it is too long to be a pid written by lock() (10 bytes and more)
+//@   assert at `return fmt.Errorf("the lock file should be <` [only-an-oversized-file-is-refused-unexamined] len(buf) >= 10
 //@   defines [outcome] lastAvailable == (result == nil)
 //@ func (*RepoCache).lock
 //@   props C19
@@ -698,3 +713,53 @@ package cache
 //@   props C18
 //@   modifies nothing
 //@   ensures result != nil && fresh(result)
+
+// Sorting orders of a query (C12: 'ordered as documented'): creation and edit order compare the logical times
+// first and fall back to the wall-clock stamps only for equal logical times; the id order is the id's.
+//@ func BugsByCreationTime.Less
+//@   props C12
+//@   requires 0 <= i && i < len(b) && 0 <= j && j < len(b) && b[i] != nil && b[j] != nil
+//@   modifies nothing
+//@   ensures [logical-time-then-timestamp] result == ((b[i].CreateLamportTime != b[j].CreateLamportTime) ? b[i].CreateLamportTime < b[j].CreateLamportTime : b[i].CreateUnixTime < b[j].CreateUnixTime)
+//@ func BugsByEditTime.Less
+//@   props C12
+//@   requires 0 <= i && i < len(b) && 0 <= j && j < len(b) && b[i] != nil && b[j] != nil
+//@   modifies nothing
+//@   ensures [logical-time-then-timestamp] result == ((b[i].EditLamportTime != b[j].EditLamportTime) ? b[i].EditLamportTime < b[j].EditLamportTime : b[i].EditUnixTime < b[j].EditUnixTime)
+//@ func BugsById.Less
+//@   props C12
+//@   requires 0 <= i && i < len(b) && 0 <= j && j < len(b) && b[i] != nil && b[j] != nil
+//@   modifies nothing
+//@   ensures [by-id] result == (b[i].id < b[j].id)
+
+// Matching an identity against a query value (author:, actor:, participant:): by id prefix, or by the value being
+// contained in the lower-cased name or the lower-cased login (the value itself arrives lower-cased).
+//@ func (*IdentityExcerpt).Match
+//@   props C12
+//@   requires i != nil
+//@   modifies nothing
+//@   ensures [id-prefix-or-name-or-login-case-insensitive] result == (i.id.HasPrefix(query) || strings.Contains(strings.ToLower(i.Name), query) || strings.Contains(strings.ToLower(i.Login), query))
+
+// The text filters (C12): title: is a case-insensitive containment test; the identity filters (author:, actor:,
+// participant:) hand the lower-cased query value to IdentityExcerpt.Match (which lower-cases name and login).
+//@ func TitleFilter$1
+//@   props C12
+//@   modifies nothing
+//@   ensures [case-insensitive-containment] result == strings.Contains(strings.ToLower(excerpt.Title), strings.ToLower(query))
+//@ func AuthorFilter$1
+//@   props C12
+//@   assert at `return author.Match(query)` [asks-with-the-lower-cased-value] query == strings.ToLower(query0) && author != nil
+//@ func ActorFilter$1
+//@   props C12
+//@   assert at `if identityExcerpt.Match(query) {` [asks-with-the-lower-cased-value] query == strings.ToLower(query0) && identityExcerpt != nil
+//@ func ParticipantFilter$1
+//@   props C12
+//@   assert at `if identityExcerpt.Match(query) {` [asks-with-the-lower-cased-value] query == strings.ToLower(query0) && identityExcerpt != nil
+
+// The excerpt of a bug (C11: what the cache serves equals what a rebuild serves): the metadata of the create
+// operation is read from the bug after its snapshot has been compiled - compiling is what attaches the values set
+// by later set-metadata operations to the create operation; read earlier, an excerpt built from a freshly read bug
+// (after a pull or a rebuild) lacks them while one built in the authoring session has them.
+//@ func NewBugExcerpt
+//@   props C11
+//@   assert at `AllMetadata()` [create-metadata-read-from-the-compiled-bug] snap != nil
